@@ -60,6 +60,7 @@ type interpreter struct {
 	callDepth          int
 	extState           map[string]interface{} // per-path scratch for intrinsics (codec tables, ...)
 	skipExtFor         *ssa.Function          // run the real body of this function once (set by an external that declines)
+	sched              *scheduler             // non-nil in concurrency mode (verif.Schedule)
 }
 
 type deferred struct {
@@ -412,7 +413,7 @@ func visitInstr(fr *frame, instr ssa.Instruction) continuation {
 		panic(targetPanic{v: fr.get(instr.X)})
 
 	case *ssa.Send:
-		panic(engineAbort{"channel send"})
+		fr.chanSend(fr.get(instr.Chan), fr.get(instr.X))
 
 	case *ssa.Store:
 		store(mustDeref(instr.Addr.Type()), fr.ptr(fr.get(instr.Addr)), fr.get(instr.Val))
@@ -453,10 +454,11 @@ func visitInstr(fr *frame, instr ssa.Instruction) continuation {
 		}
 
 	case *ssa.Go:
-		panic(engineAbort{"go statement"})
+		fn, args := prepareCall(fr, &instr.Call)
+		fr.i.needSched("go statement").spawn(fr, fn, args, instr.Pos())
 
 	case *ssa.MakeChan:
-		fr.env[instr] = make(chan value, asInt64(fr.get(instr.Size)))
+		fr.env[instr] = &schan{cap: int(asInt64(fr.get(instr.Size))), elem: instr.Type().Underlying().(*types.Chan).Elem()}
 
 	case *ssa.Alloc:
 		var addr *value
@@ -574,7 +576,7 @@ func visitInstr(fr *frame, instr ssa.Instruction) continuation {
 		panic(engineAbort{"unreachable phi"})
 
 	case *ssa.Select:
-		panic(engineAbort{"select statement"})
+		fr.env[instr] = fr.selectStmt(instr)
 
 	default:
 		panic(engineAbort{fmt.Sprintf("unexpected instruction: %T", instr)})
@@ -765,6 +767,8 @@ func runFrame(fr *frame) {
 		case engineAbort:
 			panic(attachPos(fr, p))
 		case pathEnd:
+			panic(p)
+		case gkill:
 			panic(p)
 		case abortAt:
 			panic(p)
